@@ -254,12 +254,94 @@ VCLAUSE(list_templates, 120, 12000, 250000, "lists differ in length or in one el
 		for(int i = i1; i <= hi; i++)
 			VCHECK(sub[(size_t) (i - i1)] == a[(size_t) i], "Sub_List element " << i);
 	}
+	// empty index ranges (start beyond the end, upper index below the start, empty list): no elements - or a diagnostic, never a read
+	// outside the list (the sanitizers decide that)
+	{
+		std::vector<int> e = s.coin() ? std::vector<int> {} : a;
+		int m = (int) e.size();
+		int j1 = s.coin() ? m + (int) s.range(0, 3) : (int) s.range(1, std::max(1, m));
+		unsigned j2 = s.coin() ? (unsigned) s.range(0, std::max(0, j1 - 1)) : (unsigned) s.range(0, m + 2);
+		bool empty_range = e.empty() || j1 >= m || (int) j2 < j1;
+		std::vector<int> sub;
+		::vf::GuardResult g = ::vf::guarded([&]() { sub = Sub_List(e, j1, j2); });
+		c.cls(empty_range ? "Sub_List_empty_range" : "Sub_List_regular_range");
+		if(empty_range)
+		{
+			VCHECK(!g.exited || (g.code != 0 && g.output), "Sub_List: exit without failure status or diagnostic");
+			if(!g.exited)
+				VCHECK(sub.empty(), "Sub_List(" << j1 << "," << j2 << ") of a list of " << m << " returned " << sub.size() << " elements, the index range is empty");
+		}
+		else
+		{
+			VCHECK(!g.exited, "Sub_List(" << j1 << "," << j2 << ") of a list of " << m << " terminated: " << g.text);
+			int hi = std::min((int) j2, m - 1);
+			VCHECK((int) sub.size() == hi - j1 + 1, "Sub_List(" << j1 << "," << j2 << ") of a list of " << m << " has " << sub.size() << " elements");
+		}
+	}
 }
 
-VCLAUSE(summary_statistics, 420, 8000, 160000, "the data are shifted far from their spread (|shift| >= 1e6 spreads) or permuted, or N is even")
+VCLAUSE(summary_statistics, 1100, 8000, 160000, "the data are shifted far from their spread (|shift| >= 1e6 spreads) or permuted, or N is even")
 {
 	Src& s = c.s;
 	int N = (int) s.range(2, 200);
+	if(s.chance(0.2))
+	{
+		// general (non-dyadic) data of length 1..200 against long-double references; tolerances allow any summation order and one-pass
+		// (Welford) updates: N*eps relative
+		N = s.chance(0.15) ? 1 : (int) s.range(1, 200);
+		std::vector<double> g((size_t) N);
+		double gmax = 0;
+		for(auto& v : g)
+		{
+			v	 = s.mixed(-3, 3);
+			gmax = std::max(gmax, std::fabs(v));
+		}
+		c.cls(N == 1 ? "general_data_single_point" : "general_data");
+		VLOG(c, "general data N=" << N << " x=" << show(g, 12));
+		long double gs = 0;
+		for(double v : g)
+			gs += v;
+		long double gm = gs / N, gss = 0;
+		for(double v : g)
+			gss += ((long double) v - gm) * ((long double) v - gm);
+		double m = 0, md = 0;
+		std::vector<double> cp = g, so = g;
+		VMUST_RETURN("Arithmetic_Mean/Median", m = Arithmetic_Mean(g); md = Median(cp));
+		VCLOSE(c, "general_mean", m, (double) gm, (4 + 2 * N) * EPS * gmax + 1e-300, "Arithmetic_Mean of general data");
+		std::sort(so.begin(), so.end());
+		double emed = N % 2 ? so[(size_t) N / 2] : (so[(size_t) N / 2 - 1] + so[(size_t) N / 2]) / 2;
+		VCLOSE(c, "general_median", md, emed, 2 * EPS * std::fabs(emed), "Median of general data (N=" << N << ")");
+		std::vector<DataPoint> dp;
+		long double sw = 0, swx = 0;
+		for(int i = 0; i < N; i++)
+		{
+			double wi = std::pow(10.0, s.uniform(-3, 3));
+			dp.push_back(DataPoint(g[(size_t) i], wi));
+			sw += wi;
+			swx += (long double) wi * g[(size_t) i];
+		}
+		std::vector<double> wa, wp;
+		std::vector<DataPoint> dperm = dp;
+		for(int i = N - 1; i > 0; i--)
+			std::swap(dperm[(size_t) i], dperm[(size_t) s.range(0, i)]);
+		VMUST_RETURN("Weighted_Average", wa = Weighted_Average(dp); wp = Weighted_Average(dperm));
+		VCHECK(wa.size() == 2 && wp.size() == 2, "Weighted_Average returns {average, standard error}");
+		long double absw = 0;
+		for(auto& d : dp)
+			absw += fabsl((long double) d.weight * d.value);
+		double wtol = (8 + 4 * N) * EPS * (double) (absw / sw) + 1e-300;
+		VCLOSE(c, "general_weighted_mean", wa[0], (double) (swx / sw), wtol, "sum(w x)/sum(w) with weights over six decades");
+		VCLOSE(c, "general_weighted_mean_permutation", wp[0], wa[0], 2 * wtol, "weighted mean of a permutation of the data points");
+		if(N >= 2)
+		{
+			double v = 0, sd = 0;
+			VMUST_RETURN("Variance/Standard_Deviation", v = Variance(g); sd = Standard_Deviation(g));
+			long double var = gss / (N - 1);
+			VCLOSE(c, "general_variance", v, (double) var, (16 + 4 * N) * EPS * ((double) var + gmax * gmax * N * EPS) + 1e-300, "Variance of general data");
+			VCLOSE(c, "general_standard_deviation", sd, std::sqrt((double) var), (16 + 4 * N) * EPS * (std::sqrt((double) var) + gmax * std::sqrt(N * EPS)) + 1e-300, "Standard_Deviation of general data");
+		}
+		return;
+	}
 	// dyadic data: sums and shifts by powers of two are exact, so the laws can be asserted tightly
 	std::vector<double> x((size_t) N);
 	for(auto& v : x)
@@ -365,5 +447,14 @@ VCLAUSE(summary_statistics, 420, 8000, 160000, "the data are shifted far from th
 		VCLOSE(c, "weighted_se_translation", wsh[1], wq[1], 1e-9 * (se + 1e-3) * (1 + std::fabs(c2)), "standard error of the weighted mean must not change under x -> x + " << c2);
 		VCLOSE(c, "weighted_se_scaling", wsc[1], std::fabs(a2) * wq[1], 1e-10 * std::fabs(a2) * (se + 1e-12), "standard error of the weighted mean must scale with |a| under x -> a x");
 		VCLOSE(c, "weighted_mean_translation_unequal", wsh[0], wq[0] + c2, 16 * EPS * (32 + std::fabs(c2)), "weighted mean of shifted data (unequal weights)");
+		VCLOSE(c, "weighted_mean_scaling_unequal", wsc[0], wq[0] * a2, 16 * EPS * 32 * std::fabs(a2), "weighted mean of scaled data (unequal weights)");
+		// permutation of the data points (values travel with their weights)
+		std::vector<DataPoint> dpm = dq;
+		for(int i = N - 1; i > 0; i--)
+			std::swap(dpm[(size_t) i], dpm[(size_t) s.range(0, i)]);
+		std::vector<double> wpm;
+		VMUST_RETURN("Weighted_Average", wpm = Weighted_Average(dpm));
+		VCLOSE(c, "weighted_mean_permutation", wpm[0], wq[0], 16 * EPS * 32, "weighted mean of permuted data points");
+		VCLOSE(c, "weighted_se_permutation", wpm[1], wq[1], 1e-9 * (se + 1e-3), "standard error of the weighted mean of permuted data points");
 	}
 }
